@@ -54,30 +54,23 @@ func fieldIdx(s *types.Struct, name string) int {
 func registerConcolic(e *Engine) {
 	e.intercept["github.com/llir/ll/ast.Parse"] = func(e *Engine, st *State, fr *Frame, in ssa.CallInstruction, a []Val) Val {
 		content := a[1].(StrVal)
+		// the symbolic content bytes themselves are what the solver is asked for
+		// (they may be terms over wide bit-vectors that cannot be evaluated here)
 		var syms []*Term
 		seen := map[*Term]bool{}
 		for _, b := range content.b {
-			if !b.IsConst() {
-				for v := range b.freeVars() {
-					if !seen[v] {
-						seen[v] = true
-						syms = append(syms, v)
-					}
-				}
+			if !b.IsConst() && !seen[b] {
+				seen[b] = true
+				syms = append(syms, b)
 			}
 		}
 		concretise := func(vals map[*Term]uint64) string {
 			buf := make([]byte, len(content.b))
-			memo := map[*Term]uint64{}
 			for i, b := range content.b {
 				if b.IsConst() {
 					buf[i] = byte(b.c)
 				} else {
-					v, ok := evalTerm(b, vals, memo)
-					if !ok {
-						abort("unsupported", "concolic parse: content byte not evaluable")
-					}
-					buf[i] = byte(v)
+					buf[i] = byte(vals[b])
 				}
 			}
 			return string(buf)
